@@ -65,9 +65,11 @@ impl Cost {
     #[verifier::external_body] pub const ZERO: Cost = Cost(0.0);
     #[verifier::external_body] pub const ONE: Cost = Cost(1.0);
     #[verifier::external_body] pub const INFINITY: Cost = Cost(f64::INFINITY);
-    #[verifier::external_body] pub fn new(v: f64) -> Cost { Cost(v) }
-    #[verifier::external_body] pub fn as_f64(&self) -> f64 { self.0 }
+    #[verifier::external_body] pub fn new(v: f64) -> (r: Cost) ensures r == cost_new(v) { Cost(v) }
+    #[verifier::external_body] pub fn as_f64(&self) -> (r: f64) ensures r == cost_f(*self) { self.0 }
 }
+pub uninterp spec fn cost_new(v: f64) -> Cost;
+pub uninterp spec fn cost_f(c: Cost) -> f64;
 pub axiom fn cost_consts() ensures !c_inf(Cost::ZERO), c_val(Cost::ZERO) == 0real, !c_inf(Cost::ONE), c_inf(Cost::INFINITY);
 impl vstd::std_specs::ops::AddSpecImpl<Cost> for Cost {
     open spec fn obeys_add_spec() -> bool { false }
@@ -148,10 +150,13 @@ impl FrontierModel {
                 r matches Err(err) ==> !(err is NoPathExistsBetweenVertices) && !(err is TerminationModelFailure)
     { unimplemented!() }
 }
+/// the instance's cost estimate from s to d (deterministic, uninterpreted)
+pub uninterp spec fn est_of(si: &SearchInstance, s: VertexId, d: VertexId, st: Seq<StateVar>) -> Cost;
 impl SearchInstance {
     #[verifier::external_body]
     pub fn estimate_traversal_cost(&self, s: VertexId, d: VertexId, st: &Vec<StateVar>) -> (r: Result<Cost, SearchError>)
-        ensures r matches Err(err) ==> !(err is NoPathExistsBetweenVertices) && !(err is TerminationModelFailure)
+        ensures r matches Err(err) ==> !(err is NoPathExistsBetweenVertices) && !(err is TerminationModelFailure),
+                r matches Ok(c) ==> c == est_of(self, s, d, st@)
     { unimplemented!() }
 }
 
@@ -529,6 +534,8 @@ def build(x):
                 assert(c_lt(tentative_gscore, existing_gscore));
                 assert(!c_inf(tentative_gscore) && c_val(tentative_gscore) == c_val(l_old[terminal_vertex_id]) + c_val(et_cost(solution@[key_vertex_id].edge_traversal)));
                 assert(l_old.contains_key(key_vertex_id) ==> c_val(tentative_gscore) < c_val(l_old[key_vertex_id]));""")
+    ra.insert_after(r"Some\(target_v\) => \{\s*let cost_est =\s*si\s*\.estimate_traversal_cost\([^;]*\)\?;", """                        // C02: the heuristic term of a vertex is the estimate FROM THAT VERTEX (the one being labelled) to the target
+                        assert(cost_est == est_of(si, key_vertex_id, target_v, current_state@));""")
     ra.insert_after(r"let f_score_value = tentative_gscore \+ dst_h_cost;", """                // the vertex is re-queued with f = g + (weighted) estimate
                 assert(c_inf(f_score_value) == c_inf(dst_h_cost) && (!c_inf(f_score_value) ==> c_val(f_score_value) == c_val(tentative_gscore) + c_val(dst_h_cost)));
                 let ghost cq_old = costs@;""")
